@@ -256,4 +256,42 @@ theorem deliveredOK_of_inv {isServer g : Bool} {es : List Expect} {s : L2 × Col
         rw [hO]
         simp [hT.2.2]
 
+/-- a stream that is due has exactly one delivered trace under its name, the promised one -/
+theorem due_has_trace {isServer g : Bool} {es : List Expect} {s : L2 × Coll} (h : Inv isServer g es s) (e : Expect) (he : e ∈ es)
+    (hn : e.name ≠ "") (hd : e.due = true) :
+    ∃ t, s.2.outFor e.name = [t] ∧ traceOK isServer e t.obs = true := by
+  simp only [Expect.due, Bool.and_eq_true, Bool.not_eq_true'] at hd
+  obtain ⟨_, t, hO, hT⟩ := ((h.names e.name hn).1 e he rfl hd.2).2.2 hd.1.1 hd.1.2
+  exact ⟨t, hO, hT.2.2⟩
+
+/-- as long as no stream of a name is due, nothing is delivered under that name (open, held
+back for a retry, or superseded by a retry that has not finished) -/
+theorem not_due_nothing {isServer g : Bool} {es : List Expect} {s : L2 × Coll} (h : Inv isServer g es s) (n : String) (hn : n ≠ "")
+    (hnd : ∀ e ∈ es, e.name = n → e.due = false) : s.2.outFor n = [] := by
+  by_cases hex : ∃ x ∈ es, x.name = n ∧ x.superseded = false
+  · obtain ⟨x, hx, hxn, hxs⟩ := hex
+    have hx1 := (h.names n hn).1 x hx hxn hxs
+    have hd := hnd x hx hxn
+    cases ho : x.isOpen with
+    | true => exact (hx1.1 ho).2
+    | false =>
+      cases hh : x.held with
+      | true => obtain ⟨t, _, b, _⟩ := hx1.2.1 ho hh; exact b
+      | false => simp [Expect.due, ho, hh, hxs] at hd
+  · exact ((h.names n hn).2 (fun x hx hxn => by
+      cases hs : x.superseded with
+      | true => rfl
+      | false => exact absurd ⟨x, hx, hxn, hs⟩ hex)).2
+
+theorem wellFormed_parts (ws : List WEv) (h : wellFormed ws = true) :
+    Good (expects [] ws) ∧ noOpenAfterGoaway ws = true := by
+  simp only [wellFormed, Bool.and_eq_true, List.all_eq_true, Bool.not_eq_true'] at h
+  exact ⟨⟨h.1.1, (nodupNat_iff _).mp h.1.2⟩, h.2⟩
+
+/-- the invariant at the end of any well-formed run -/
+theorem wf_inv (isServer : Bool) (ws : List WEv) (hwf : wellFormed ws = true) (hl : lossesOK ws = true) :
+    ∃ g, Inv isServer g (expects [] ws) (runW (l2Init isServer, Coll.init) ws) := by
+  obtain ⟨hg, hno⟩ := wellFormed_parts ws hwf
+  exact run_inv ws false [] _ (inv_init isServer) (fun hx => by cases hx) hno hl hg
+
 end ConfModel.H2
